@@ -11,7 +11,7 @@ import random
 
 import numpy as np
 
-from harness.common import DTYPE_COQ, HarnessError, cbool, clist, cnat, copt, cstr, cz, dtype_name
+from harness.common import DTYPE_COQ, LAYOUTS, HarnessError, cbool, clist, cnat, copt, cstr, cz, dtype_name, relayout
 from harness.storelib import Interner, abstract_meta_obj, c_arr, c_meta, enc_arr, enc_value
 
 INT_DTYPES = ["int8", "int16", "int32", "int64", "uint8", "uint16", "uint32", "uint64"]
@@ -31,7 +31,7 @@ def to_np(a: dict) -> np.ndarray:
         arr = np.array(data, dtype=str) if data else np.empty(0, dtype="<U1")
     else:
         arr = np.array(data, dtype=dt)
-    return arr.reshape(a["shape"])
+    return relayout(arr.reshape(a["shape"]), a.get("layout"))
 
 
 def prop_to_np(p: dict) -> dict:
@@ -104,7 +104,11 @@ def rand_scalar(rng: random.Random, dt: str, exact: bool = False):
 
 def rand_array(rng, dt, shape, exact=False) -> dict:
     n = int(np.prod(shape)) if shape else 1
-    return {"dtype": dt, "shape": list(shape), "data": [rand_scalar(rng, dt, exact) for _ in range(n)]}
+    a = {"dtype": dt, "shape": list(shape), "data": [rand_scalar(rng, dt, exact) for _ in range(n)]}
+    lay = rng.choice(LAYOUTS)
+    if lay != "C" and len(shape) >= 1:
+        a["layout"] = lay  # memory layout only; the logical contents are 'data' in C order
+    return a
 
 
 def rand_mask(rng, n, pattern=None):
@@ -204,8 +208,13 @@ def rand_graph(rng: random.Random, max_n=6, max_e=6, max_props=4, axes=True) -> 
     ep_opt = eprops if (eprops or rng.random() < 0.8) else None
     if np_opt is None and md.get("axes"):
         md.pop("axes")
-    return {"nids": {"dtype": dt, "shape": [n], "data": ids}, "eids": {"dtype": dt, "shape": [e, 2], "data": [x for r in edges for x in r]},
-            "nprops": np_opt, "eprops": ep_opt, "md": md}
+    g = {"nids": {"dtype": dt, "shape": [n], "data": ids}, "eids": {"dtype": dt, "shape": [e, 2], "data": [x for r in edges for x in r]},
+         "nprops": np_opt, "eprops": ep_opt, "md": md}
+    for k in ("nids", "eids"):
+        lay = rng.choice(LAYOUTS)
+        if lay != "C":
+            g[k]["layout"] = lay
+    return g
 
 
 # --------------------------------------------------------------------------
